@@ -76,7 +76,7 @@ def resolve_static_call(model, func, call):
 
 def bounds_summaries(model, func, **kw):
     """summaries= callback for intervals.Bounds: one-level summaries of statically named helpers."""
-    from ..intervals import summarise
+    from ..intervals import ContextSummary
     cache = {}
 
     def get(call):
@@ -84,8 +84,7 @@ def bounds_summaries(model, func, **kw):
         if callee is None or callee is func:
             return None
         if callee.qual not in cache:
-            cache[callee.qual] = None     # recursion guard
-            cache[callee.qual] = summarise(callee.node, **kw)
+            cache[callee.qual] = ContextSummary(callee.node, **kw)
         return cache[callee.qual]
 
     return get
@@ -467,7 +466,23 @@ def collection_sources(model, prop="*"):
         rets = [r for st_ in body for r in ast.walk(st_) if isinstance(r, ast.Return) and r.value is not None]
         if not rets:
             return None
+        # locals that hold one expression (`sortedKeys = sorted(collection.value.keys())`) are read through
+        single = {}
+        for a_ in ast.walk(gcv.node):
+            if isinstance(a_, ast.Assign) and len(a_.targets) == 1 and isinstance(a_.targets[0], ast.Name):
+                single.setdefault(a_.targets[0].id, []).append(a_.value)
+        single = {k: v[0] for k, v in single.items() if len(v) == 1}
+
+        class _Sub(ast.NodeTransformer):
+            def visit_Name(self, n_):
+                if isinstance(n_.ctx, ast.Load) and n_.id in single:
+                    return single[n_.id]
+                return n_
+
+        import copy
         for r in rets:
+            r = ast.Return(value=_Sub().visit(copy.deepcopy(r.value)), lineno=r.lineno, col_offset=r.col_offset,
+                           end_lineno=getattr(r, "end_lineno", r.lineno), end_col_offset=getattr(r, "end_col_offset", 0))
             t = norm(r.value)
             by_key = any(k in t for k in ("getSortedKeys()", "getSortedItems()")) or any(
                 isinstance(c_, ast.Call) and norm(c_.func) == "sorted" and c_.args
